@@ -436,6 +436,13 @@ func runC01(c *worker.Ctx) {
 	}
 
 	// ---- parsing ----------------------------------------------------------
+	type keptErr struct {
+		entry string
+		pe    *parser.ParseError
+		tok   token.Token
+		msg   string
+	}
+	var kept []keptErr
 	for _, e := range entries {
 		o := runEntry(e, delivered, base, c)
 		outcomeSig = append(outcomeSig, o.class())
@@ -459,6 +466,9 @@ func runC01(c *worker.Ctx) {
 			} else {
 				res.Probe("parse_error_located")
 			}
+			if pe != nil {
+				kept = append(kept, keptErr{e.name, pe, pe.Token, pe.Message})
+			}
 		default:
 			if isNilTree(o.tree) && e.name != "ParseSnippetVCL" {
 				res.Violate("C01/O4-tree-xor-error", "C01/no-tree-no-error:"+e.name, fmt.Sprintf("%s returned neither a tree nor an error\ninput:\n%s", e.name, clipSrc(string(delivered))))
@@ -472,6 +482,21 @@ func runC01(c *worker.Ctx) {
 				res.Violate("C01/O5-delivery", "C01/delivery:"+e.name, fmt.Sprintf("%s outcome depends on delivery %s (same %d bytes): %s/%v vs all-at-once %s/%v", e.name, plan, len(delivered), op.class(), op.err, o.class(), o.err))
 			}
 		}
+	}
+	// An error value keeps designating its own text: a later parse (another
+	// entry point, another source) must not change what an earlier error says.
+	if len(kept) > 0 && len(res.Violations) == 0 {
+		other := "sub vcl_recv {\n\n\n      set req.http.X = \"a\"\n}\n" // fails elsewhere: missing semicolon on line 4
+		runEntry(entries[0], []byte(other), base, c)
+		runEntry(entries[1], []byte("\n\n   log \"x\"\nset req.http.Y = ;\n"), base, c)
+		runEntry(entries[0], []byte("acl a {\n\n  \"10.0.0.0\"/8\n}\ntable t {\n  \"k\" \"v\"\n}\n"), base, c)
+		for _, k := range kept {
+			if k.pe.Token != k.tok || k.pe.Message != k.msg {
+				res.Violate("C01/O4-error-located", "C01/error-aliased", fmt.Sprintf("the error returned by %s said {%s} %q; after later, unrelated parses the same error value says {%s} %q\ninput:\n%s", k.entry, k.tok.String(), k.msg, k.pe.Token.String(), k.pe.Message, clipSrc(string(delivered))))
+				break
+			}
+		}
+		res.Probe("error_value_rechecked_after_later_parses")
 	}
 	if mode == 1 || mode == 3 {
 		// did the cut land inside a token? (reach probe)
